@@ -1,6 +1,7 @@
 package props
 
 import (
+	"bytes"
 	"fmt"
 	"regexp"
 	"strings"
@@ -9,6 +10,7 @@ import (
 	"unicode/utf8"
 
 	"github.com/tobgu/qframe"
+	"github.com/tobgu/qframe/config/csv"
 	"github.com/tobgu/qframe/config/newqf"
 
 	"verifharness/hx"
@@ -110,4 +112,162 @@ func TestC18Runes(t *testing.T) {
 	evC18.CaseHash(true, 0x52554e45, func() string {
 		return fmt.Sprintf("exhaustive: like/ilike with each of %d single code points as pattern against its case variants and neighbours", patterns)
 	}, "all-code-points")
+}
+
+func allRuneCells() []string {
+	var cells []string
+	for r := rune(0); r <= unicode.MaxRune; r++ {
+		if r >= 0xD800 && r <= 0xDFFF {
+			continue
+		}
+		cells = append(cells, string(r))
+	}
+	return cells
+}
+
+// TestC14Runes: ToJSON of one cell per code point, of every single byte (valid or not) between two letters, and of
+// column names holding each byte: the output is valid UTF-8 and valid JSON and decodes to the cells (invalid bytes as
+// U+FFFD), whatever the escape tables do for any single character.
+func TestC14Runes(t *testing.T) {
+	cells := allRuneCells()
+	for b := 0; b < 256; b++ {
+		cells = append(cells, "x"+string([]byte{byte(b)})+"y", string([]byte{byte(b)}))
+	}
+	tab := hx.Table{Cols: []hx.Col{{Name: "s", Kind: hx.KString, S: make([]*string, len(cells))}}}
+	for i := range cells {
+		tab.Cols[0].S[i] = &cells[i]
+	}
+	qf := hx.Build(tab)
+	if qf.Err != nil {
+		t.Fatal(qf.Err)
+	}
+	var buf bytes.Buffer
+	if err := qf.ToJSON(&buf); err != nil {
+		t.Fatal(err)
+	}
+	if msg := hx.CheckJSONDenotes(buf.Bytes(), tab); msg != "" {
+		t.Fatalf("ToJSON over all code points and all single bytes: %s", msg)
+	}
+	// names: one frame per 64 bytes, a column per byte
+	for lo := 0; lo < 256; lo += 64 {
+		nt := hx.Table{}
+		for b := lo; b < lo+64; b++ {
+			name := "n" + string([]byte{byte(b)}) + "z"
+			nt.Cols = append(nt.Cols, hx.Col{Name: name, Kind: hx.KInt, I: []int{b}})
+		}
+		nq := hx.Build(nt)
+		if nq.Err != nil {
+			t.Fatalf("names with bytes %d..%d: %v", lo, lo+63, nq.Err)
+		}
+		buf.Reset()
+		if err := nq.ToJSON(&buf); err != nil {
+			t.Fatal(err)
+		}
+		if msg := hx.CheckJSONDenotes(buf.Bytes(), nt); msg != "" {
+			t.Fatalf("ToJSON with column names holding the bytes %d..%d: %s", lo, lo+63, msg)
+		}
+	}
+	evC14.CaseHash(true, 0x52554e45, func() string {
+		return fmt.Sprintf("exhaustive: ToJSON of %d cells (every code point, every single byte) and of column names holding each byte", len(cells))
+	}, "all-code-points")
+}
+
+// TestC13Runes: the same cells (CR excluded) through ToCSV and ReadCSV.
+func TestC13Runes(t *testing.T) {
+	var cells []string
+	for _, c := range allRuneCells() {
+		if c != "\r" && c != "" {
+			cells = append(cells, c)
+		}
+	}
+	for b := 0; b < 256; b++ {
+		if b != '\r' {
+			cells = append(cells, "x"+string([]byte{byte(b)})+"y")
+		}
+	}
+	tab := hx.Table{Cols: []hx.Col{{Name: "s", Kind: hx.KString, S: make([]*string, len(cells))}, {Name: "id", Kind: hx.KInt, I: hx.Iota(len(cells))}}}
+	for i := range cells {
+		tab.Cols[0].S[i] = &cells[i]
+	}
+	qf := hx.Build(tab)
+	var buf bytes.Buffer
+	if err := qf.ToCSV(&buf); err != nil {
+		t.Fatal(err)
+	}
+	back := qframe.ReadCSV(bytes.NewReader(buf.Bytes()), csv.Types(map[string]string{"s": "string", "id": "int"}))
+	if back.Err != nil {
+		t.Fatalf("reading back the CSV of all code points: %v", back.Err)
+	}
+	got, err := hx.Observe(back)
+	if err != nil {
+		t.Fatal(err)
+	}
+	if diff := hx.Diff(tab, got); diff != "" {
+		t.Fatalf("ToCSV/ReadCSV over all code points and single bytes: %s", diff)
+	}
+	evC13.CaseHash(true, 0x52554e45, func() string {
+		return fmt.Sprintf("exhaustive: ToCSV/ReadCSV round trip of %d cells (every code point but CR, every single byte but CR)", len(cells))
+	}, "all-code-points")
+}
+
+// TestC12Delims: every byte that can be a delimiter (all but quote, LF, CR) on a small document whose cells hold the
+// delimiter (quoted), high bytes, U+FFFD and blanks.
+func TestC12Delims(t *testing.T) {
+	n := 0
+	for d := 0; d < 256; d++ {
+		if d == '"' || d == '\n' || d == '\r' {
+			continue
+		}
+		ds := string([]byte{byte(d)})
+		other := "q"
+		if d == 'q' {
+			other = "w"
+		}
+		rows := [][]string{{"h1", "h2", "h3"}, {other, "a" + ds + "b", "\xff\xfe"}, {"�" + other, "", " " + other + " "}, {ds, ds + ds, other + "\"" + other}}
+		var sb strings.Builder
+		for _, row := range rows {
+			for i, c := range row {
+				if i > 0 {
+					sb.WriteString(ds)
+				}
+				if strings.Contains(c, ds) || strings.ContainsAny(c, "\"\n") {
+					sb.WriteString("\"" + strings.ReplaceAll(c, "\"", "\"\"") + "\"")
+				} else {
+					sb.WriteString(c)
+				}
+			}
+			sb.WriteString("\n")
+		}
+		for _, chunk := range []int{0, 1} {
+			var rd *hx.ChunkReader
+			if chunk == 0 {
+				rd = hx.NewChunkReader([]byte(sb.String()), nil, false)
+			} else {
+				rd = hx.NewChunkReader([]byte(sb.String()), []int{1}, false)
+			}
+			qf := qframe.ReadCSV(rd, csv.Delimiter(byte(d)), csv.Types(map[string]string{"h1": "string", "h2": "string", "h3": "string"}))
+			if qf.Err != nil {
+				t.Fatalf("delimiter %#x (chunk %d): %v\ndoc %q", d, chunk, qf.Err, sb.String())
+			}
+			got, err := hx.Observe(qf)
+			if err != nil {
+				t.Fatal(err)
+			}
+			want := hx.Table{}
+			for ci, h := range rows[0] {
+				c := hx.Col{Name: h, Kind: hx.KString}
+				for _, row := range rows[1:] {
+					c.S = append(c.S, hx.Sp(row[ci]))
+				}
+				want.Cols = append(want.Cols, c)
+			}
+			if diff := hx.Diff(want, got); diff != "" {
+				t.Fatalf("delimiter %#x (chunk %d): %s\ndoc %q", d, chunk, diff, sb.String())
+			}
+		}
+		n++
+	}
+	evC12.CaseHash(true, 0x44454c49, func() string {
+		return fmt.Sprintf("exhaustive: all %d possible delimiter bytes on a small document", n)
+	}, "all-delimiters")
 }
